@@ -39,7 +39,7 @@ PROPS = {
         'trusted': [],
     },
     'C07': {
-        'suites': [('ret', 1500, 60000), ('w_c07', 150, 6000)],
+        'props': ['C07', 'C07w'], 'suites': [('ret', 1500, 60000), ('w_c07', 150, 6000)],
         'rule': 'ret: random histories (0-25 ops) of AddOrReplace/Remove/ClearAll over a pool of 2-8 topics built from levels {a,b,"",$s,ab} (prefix-related, $ topics), '
                 'then lookups: GetMatchedMessages for ~10 filters of every shape, GetRetainedMessage, Iterate; non-trivial = >=3 ops and a non-empty answer',
         'assumptions': ['messages are compared field by field (all Message fields)'],
@@ -55,7 +55,7 @@ PROPS = {
         'trusted': ['persistence/queue/mem/verif_hooks.go (VerifShift, VerifReadWouldBlock, VerifDrained)'],
     },
     'C03': {
-        'props': ['C03', 'C03w'], 'suites': [('lim', 2000, 100000), ('w_c03', 250, 10000)],
+        'props': ['C03', 'C03w', 'C03g'], 'suites': [('lim', 2000, 100000), ('w_c03', 250, 10000)],
         'rule': 'lim: random histories of poll/release/batchRelease/markUsed/close on the real packetIDLimiter (limits 1..65535, forced wrap 65535->1 by presetting the cursor); '
                 'non-trivial = a poll returned ids and (a poll blocked or the ids wrapped). '
                 'w_c03: wire scenarios: 1-2 persistent subscriber sessions (v3.1/3.1.1/5, Receive Maximum absent/1/2/3/5/65535, max_inflight 1..65535), a publisher and api_publish, acks prompt/late/out of order/never/'
@@ -74,7 +74,7 @@ PROPS = {
         'assumptions': [], 'trusted': [],
     },
     'C13': {
-        'suites': [('alias', 2000, 100000), ('w_c13', 200, 6000)],
+        'props': ['C13', 'C13w'], 'suites': [('alias', 2000, 100000), ('w_c13', 200, 6000)],
         'rule': 'alias: topic sequences over a pool of 1-8 topics against the fifo alias manager with maxima 0,1,2,3,5,65535; non-trivial = an alias was reused and an eviction happened',
         'assumptions': [], 'trusted': [],
     },
@@ -89,7 +89,7 @@ PROPS = {
         'trusted': ['harness/wire_runner.go quiescence barrier and independent codec (harness/WIRE.md)'],
     },
     'C12': {
-        'suites': [('w_c12', 300, 12000)],
+        'props': ['C12', 'C12w'], 'suites': [('w_c12', 300, 12000)],
         'rule': 'w_c12: publishers p1,p2 and subscribers s1..s3 (v3.1/3.1.1/5, Receive Maximum 1-3 or absent), one subscription each, publishes with Message Expiry absent/0/1/2/3/5/60/61/7200/7201/100000/2^32-1, '
                 'configured maximum 0/1/2/60/7200/100000, subscribers offline / window full / slow to ack, clock advances aimed just below/above deadlines (100 ms mod 1 s), one real sleep in 1/16 scenarios; '
                 'oracle: an expired copy is never delivered and is reported dropped exactly once, a v5 subscriber gets original minus whole seconds waited (>= 1), unexpired copies are delivered as soon as the window allows',
